@@ -5,10 +5,4 @@ NOTES = ("One check per property: ./check <id>. Every run regenerates Gen/ from 
          "and fixed findings.")
 TRANSLATED = []
 NOT_CLAIMED = {}
-CLAIMED = {
- "C19": {
-  "text": "Proof on a byte-level Lean model of the BCP encoder, decoder and receiver: decode(encode cmd kw) = (cmd, kw) for every command and every list of distinct scalar parameters over arbitrary byte strings (incl. %XX, type-like prefixes, separators), ints, float texts, bools, None; the JSON branch hands the encoder's JSON text unchanged to the parser (abstract codec); the receiver's frames depend only on the byte sequence (any chunking) and every frame list is delivered completely and in order. The model is tied to bcp_socket_client.py by a correspondence run (encode, decode incl. a malformed stream, reader frames under random chunkings) on every check.",
-  "note": "Trusted: Lean kernel + {propext, Classical.choice, Quot.sound}; the hand-written model Model/Bcp.lean (validated only by differential runs); urllib.parse.quote/unquote/urlsplit, json, float repr and asyncio.StreamReader are modelled, not verified. Known finding: a scalar parameter named 'bytes' collides with the payload marker.",
-  "technique": "Lean 4 theorems (induction over byte lists / parameter lists) on a hand model + differential correspondence with the real encoder/decoder/reader",
- },
-}
+CLAIMED = {}
